@@ -45,7 +45,7 @@ TC2S == /\ IsEv("c2s")
                  [] r.k = "change"   -> DidChange(r.u, r.ts)
                  [] r.k = "semtok"   -> SemTok(r.u)
                  [] r.k = "unkreq"   -> UnknownReq
-                 [] r.k = "unknotif" -> UnknownNotif
+                 [] r.k = "unknotif" -> UnknownNotif(r.w)
                  [] r.k = "cresp"    -> ClientResponse
                  [] r.k = "shutdown" -> Shutdown
                  [] r.k = "exit"     -> Exit
